@@ -172,7 +172,7 @@ def cubes_graph(tier, seed):
         for _ in range(40):
             ts = [rng.choice(['S', 'notS', 'SandS', 'SorS', 'leaf'])
                   for _ in range(rng.choice([4, 5, 6]))]
-            if sum(NSLOTS[t] for t in ts) <= 6:
+            if sum(NSLOTS[t] for t in ts) <= 5:    # 8 targets per slot
                 out.append({'templates': ts})
     return out
 
